@@ -133,6 +133,9 @@ def one(c, r, name, hdr, mk, b, i, typed=None):
     if i % 7 == 5 and len(src) < 20000 and not remark and '#' not in e and '//' not in e:
         from ..gen import Lib, name_mandatory
         src = name_mandatory(src, Lib(), r, (2, 3))
+    elif i % 5 == 4 and len(src) < 20000 and not remark and '#' not in e and '//' not in e:
+        from ..gen import hoist_literals
+        src = hoist_literals(src, r)
     impl, model = progdiff.run_both(c, src)
     progdiff.compare(c, src, impl, model, 'payload:' + name, project=lambda f, h=hdr: f[h:], times=False)
     rep = dict(src=src.decode("utf-8")[:600000], want=b.hex()[:400])
@@ -186,6 +189,32 @@ def campaign(c):
             blk = r.bytes(251)
             one(c, r, name, hdr, mk, (blk * (size // 251 + 1))[:size], 25 * j)
             c.count('scale-payloads')
+    # one fragmentation context used several times, in any order (tail / datagram not last, overlapping requests): every call
+    # hands out its slice of the SAME payload - a call must not consume or shorten what the context holds
+    for i in range(12 if c.quick else 200):
+        r = c.rng.fork('c05-ctx-%d' % i)
+        b = pick_bytes(r, 90) or b'x'
+        n = len(b)
+        ops = []
+        for _ in range(3 + r.below(5)):
+            k = r.below(3)
+            off = r.below(n // 8 + 1)
+            if k == 0: ln = r.below(n // 8 + 2); ops.append(('fr.fragment(%d, %d);' % (off, ln), b[8 * off:min(8 * (off + ln), n)]))
+            elif k == 1: ops.append(('fr.tail(%d);' % off, b[8 * off:]))
+            else: ops.append(('fr.datagram();', b))
+        lets = []
+        src = (HEAD + 'let fr = ipv4::frag(1.2.3.4, 6.7.8.9, %s);\n' % spell(r, b, lets) + '\n'.join(o[0] for o in ops) + '\n')
+        src = ('\n'.join(lets) + '\n' if lets else '').join([src[:len(HEAD)], src[len(HEAD):]]).encode('utf-8')
+        impl, model = progdiff.run_both(c, src)
+        progdiff.compare(c, src, impl, model, 'payload:frag-context', project=lambda f: f[34:], times=False)
+        if impl['outcome'][0] == 'success':
+            recs = [x[1][34:] for x in progdiff.pcap_records(impl['file'] or b'')]
+            if recs != [o[1] for o in ops]:
+                bad = [j for j, (g, o) in enumerate(zip(recs, ops)) if g != o[1]]
+                c.violation('payload:frag-context', 'call %s on a context used before does not carry its slice of the payload (%d calls, %d records)' % (ops[bad[0]][0] if bad else '?', len(ops), len(recs)), dict(src=src.decode('utf-8')[:3000]))
+        else:
+            c.violation('payload:rejected', 'frag-context: %s' % (impl['outcome'],), dict(src=src.decode('utf-8')[:3000]))
+        c.case(('ctx', i), dict(kind='frag-context', ops=[o[0] for o in ops]) if i % 4 == 0 else None)
     # join helpers with empty parts in every position (leading, middle, trailing, all empty)
     import itertools
     for n in (1, 2, 3, 4):
